@@ -176,10 +176,11 @@ class Resolver:
 
     # ------------------------------------------------------------------ environments
     def env(self, f: FuncInfo) -> dict[str, TypeRef]:
-        if f.qual in self._env_cache:
-            return self._env_cache[f.qual]
+        ck = getattr(f, "ckey", f.qual)
+        if ck in self._env_cache:
+            return self._env_cache[ck]
         env: dict[str, TypeRef] = {}
-        self._env_cache[f.qual] = env  # recursion guard
+        self._env_cache[ck] = env  # recursion guard
         if f.outer is not None:
             env.update(self.env(f.outer))
         a = f.node.args
@@ -421,8 +422,9 @@ class Resolver:
         return None
 
     def call_sites(self, f: FuncInfo) -> list["CallSite"]:
-        if f.qual in self._calls_cache:
-            return self._calls_cache[f.qual]
+        ck = getattr(f, "ckey", f.qual)
+        if ck in self._calls_cache:
+            return self._calls_cache[ck]
         env = self.env(f)
         sites = []
         for n in walk_local(f.node):
@@ -473,7 +475,7 @@ class Resolver:
                             m = None
                     if m is not None:
                         sites.append(CallSite(f, n, [m], implicit=True))
-        self._calls_cache[f.qual] = sites
+        self._calls_cache[ck] = sites
         return sites
 
     # ------------------------------------------------------------------ call graph
